@@ -67,8 +67,8 @@ func c06HeaderLookups(c *core.Ctx, g *flow.Func, keys map[types.Object]bool, can
 			}
 			out = append(out, c06Lookup{x, canonical || c06HasCanonical(g, cl), c06DeclConstructOf(g) + ": " + types.ExprString(x.X) + "[" + types.ExprString(x.Index) + "]"})
 		case *ast.CallExpr:
-			fnObj, ok := g.Callee(x).(*types.Func)
-			if !ok {
+			fnObj, _ := c06Callee(g, x)
+			if fnObj == nil {
 				return true
 			}
 			sig := fnObj.Type().(*types.Signature)
